@@ -12,6 +12,7 @@ import (
 	"io"
 	"net/http"
 	"net/url"
+	"os"
 	"regexp"
 	"strings"
 
@@ -286,8 +287,20 @@ func checkC14(res *vh.Result, kc *kinCache, it *built, si *stepInfo, ob *rt.Obs,
 		res.Count("kin_not_checked")
 		return
 	}
+	if dbg := os.Getenv("C04_DEBUG_METHOD"); dbg != "" && dbg == si.Method {
+		fmt.Fprintf(os.Stderr, "DBG %s %s %s invoked=%d status=%d kin=%v %s\n", si.Method, si.Desc, si.Site, ob.Invoked, status(ob), reqV.OK, reqV.Err)
+	}
 	in["schema_verdict_request"] = reqV
 	in["schema_verdict_response"] = respV
+	if si.Side == "request" && ob.Resp == nil {
+		// no response at all: the server crashed while serving the request; neither an acceptance nor a rejection
+		sig := "server-no-response"
+		if len(si.Expected) == 1 && si.Expected[0].Kw == "required" && mapValueRequiredOnly(si.Design, si.M.Payload, si.Expected[0].Path) {
+			sig = "map-value-required-only-unvalidated"
+		}
+		failSig(res, sig, fmt.Sprintf("the server answered nothing (it crashed) on a request (%s at %s); schema verdict: conforms=%v %s", si.Desc, si.Site, reqV.OK, reqV.Err), in)
+		return
+	}
 	if si.Side == "request" {
 		serverAccepts := ob.Invoked == 1
 		res.Count(fmt.Sprintf("request_server=%v_schema=%v", serverAccepts, reqV.OK))
@@ -404,6 +417,33 @@ func schemaErrKind(msg string) string {
 	return "other"
 }
 
+// aliasAttrInUserType: the violated attribute is alias-typed, carries its own validation,
+// and belongs to a named user type (documented through a $ref).
+func aliasAttrInUserType(si *stepInfo, path string) bool {
+	if si.M.Payload == nil {
+		return false
+	}
+	as := attrsAlong(si.Design, si.M.Payload, path)
+	if len(as) < 2 {
+		return false
+	}
+	last := as[len(as)-1]
+	if last.T.Kind != "user" || last.V == nil {
+		return false
+	}
+	if ut := si.Design.UserType(last.T.Ref); ut == nil || ut.Base.Kind != "prim" {
+		return false
+	}
+	for _, a := range as[:len(as)-1] {
+		if a.T.Kind == "user" {
+			if ut := si.Design.UserType(a.T.Ref); ut != nil && ut.Base.Kind == "object" {
+				return true
+			}
+		}
+	}
+	return false
+}
+
 // requiredWithDefault: the top-level attribute of the mutated site is required AND has a default.
 func requiredWithDefault(si *stepInfo) bool {
 	if si.M.Payload == nil {
@@ -489,6 +529,8 @@ func classifyC14(it *built, si *stepInfo, ob *rt.Obs, serverAccepts bool, kinErr
 		return "bytes-length-counts-base64"
 	case len(si.Expected) == 1 && strings.HasSuffix(si.Expected[0].Path, ".key"):
 		return "map-key-validation-undocumented"
+	case len(si.Expected) == 1 && aliasAttrInUserType(si, si.Expected[0].Path):
+		return "alias-attribute-validation-undocumented-in-user-type"
 	case len(si.Expected) == 1 && si.Expected[0].Kw == "required" && (siteLoc(si) == "header" || siteLoc(si) == "cookie") && requiredWithDefault(si):
 		return "openapi3-param-required-mismatch:" + siteLoc(si) + "-required-with-default"
 	case siteLoc(si) == "header" && strings.Contains(si.Site+si.Desc, "arr"):
